@@ -55,6 +55,14 @@ func cmdSeq(args []string) {
 	switch *family {
 	case "kv":
 		progs = RandomKVPrograms(*seed, *n, *length)
+	case "hash":
+		progs = RandomHashPrograms(*seed, *n, *length)
+	case "list":
+		progs = RandomListPrograms(*seed, *n, *length)
+	case "set":
+		progs = RandomSetPrograms(*seed, *n, *length)
+	case "zset":
+		progs = RandomZSetPrograms(*seed, *n, *length)
 	default:
 		die(2, "unknown family %q", *family)
 	}
